@@ -43,8 +43,9 @@ class OsServicesForAnyOs(OsServices):
 
     def copy_file(self, src: pathlib.Path, dst: pathlib.Path):
         try:
-            with src.open('r') as src_f:
-                with dst.open('w') as dst_f:
+            # Binary mode: the contents need not be text, and line endings are not translated
+            with src.open('rb') as src_f:
+                with dst.open('wb') as dst_f:
                     shutil.copyfileobj(src_f, dst_f)
         except IOError as ex:
             _raise_he__single_line(
